@@ -1,6 +1,7 @@
 //! Engine E2: Kani proof harnesses over the real f32/f64 instantiations of num-dual.
 //! Every harness is an ordinary function: under Kani its inputs are symbolic, natively (replay
 //! binary) they are the concrete values of a counterexample.
+#![recursion_limit = "512"]
 #![allow(clippy::all)]
 #![allow(unused_imports)]
 #[macro_use]
